@@ -62,6 +62,11 @@ def histories(draw):
             if q is not None:
                 ops.append(["clear", q[1], q[2]])
             continue
+        if k == 5 and draw(st.booleans()):
+            for op in aimed_scenario(draw, G):
+                if op[0] == "eval" or gen.apply_edit_to_picture(G, op):
+                    ops.append(op)
+            continue
         op = None
         if draw(st.integers(0, 2)) == 0:
             op = aimed_edit(draw, G)
@@ -99,6 +104,38 @@ def hot_members(G):
                         if n[2] in t.refs:
                             hot.add((t.path, "ref", n[2]))
     return sorted(hot)
+
+
+def aimed_scenario(draw, G):
+    """assigned values on a cells that other cells reach through an attribute path, evaluation of those readers,
+    then one edit of that cells (the shape in which an input value, not a computed one, is the stale source)"""
+    import itertools
+    from ..expr import walk
+    hot = [h for h in hot_members(G) if h[1] == "cells" and G.space(h[0]).cells[h[2]].cached]
+    if not hot:
+        return []
+    path, _, name = draw(st.sampled_from(hot))
+    sp = G.space(path)
+    cdef = sp.cells[name]
+    p = list(path)
+    out = []
+    for args in list(itertools.product(range(3), repeat=len(cdef.params)))[:draw(st.integers(1, 4))]:
+        out.append(["set_value", p, name, list(args), draw(st.integers(20, 99))])
+    for s in G.all_spaces():
+        for rn, rdef in s.cells.items():
+            if any(n[0] == "attr" and n[2] == name for n in walk(rdef.expr)):
+                out.append(["eval", gen._jsid(tuple(s.path)), rn, [draw(st.integers(0, 1)) for _ in rdef.params], None, "()"])
+    k = draw(st.integers(0, 4))
+    new = draw(st.sampled_from(["c%d" % i for i in range(FEAT.max_rank + 1)]))
+    if k <= 1 and new != name and G.find_cells(sp, new) is None:
+        out.append(["rename_cells", p, name, new])
+    elif k == 2:
+        out.append(["del_cells", p, name])
+    elif k == 3:
+        out.append(["set_cells_formula", p, name, gen.gen_cells_def(draw, G, sp, name, FEAT, params=cdef.params)])
+    else:
+        out.append(["set_cached", p, name, False])
+    return out
 
 
 def aimed_edit(draw, G):
